@@ -4,10 +4,17 @@ Runtime monitor in three workloads (see DESIGN.md "C06"):
   A  classification: drv_func --mode classify prints FuncDetail's answer for generated signatures; the oracle is what
      gcc 12 and clang 14 really do with the same C signature (vlib/abiprobe.py), ambiguous signatures excluded.
   B  native interop on the host (x86-64): x86::Compiler invoke -> gcc-compiled C callees, C callers -> JIT functions,
-     SysV and ms_abi; light-call conventions as JIT caller/JIT callee pairs.
-  C  entry shuffling: random FuncArgsAssignment, emit_prolog + emit_args_assignment executed natively on x86-64 with a
-     full machine image; the emitted bytes of every case (x86-64, x86-32, AArch64) are also disassembled by objdump /
-     llvm-objdump and executed symbolically here (compile-only + structural check for x86-32 and AArch64).
+     SysV and ms_abi; light-call conventions as JIT caller/JIT callee pairs. Every JIT function is entered through a
+     guard thunk that loads the callee-saved registers of its convention with sentinels and compares them (and rsp)
+     after the return.
+  C  entry shuffling: random FuncArgsAssignment, emit_prolog + emit_args_assignment executed natively on x86-64 and
+     (through a 64->32 far-call gate) on x86-32 with a full machine image; after the return the trampoline dumps the
+     register file again: the preserved set of the convention must hold what it held at the call, sp must be back.
+     An enumerated sub-workload (drv_func --savar) walks {SA register: default / each callee-saved GP / a scratch} x
+     {dynamic alignment} x {preserved FP} per convention for signatures with stack arguments, plus i386 conventions
+     whose scratch registers all hold arguments. The emitted bytes of every case (x86-64, x86-32, AArch64) are also
+     disassembled by objdump / llvm-objdump and executed symbolically here; the same text gives the static rule
+     `a preserved register written by the prolog / argument shuffle is in FuncFrame::saved_regs() and was stored before`.
 """
 import json
 import os
@@ -1173,6 +1180,142 @@ def cls_of(t):
     return coarse(t)
 
 
+X86_NO_WRITE = {"cmp", "test", "push", "nop", "ret", "jmp", "call", "endbr64", "endbr32", "vzeroupper", "emms", "ucomiss", "ucomisd", "comiss", "comisd"}
+A64_NO_WRITE = {"cmp", "cmn", "tst", "nop", "bti", "ret", "b", "br", "blr", "bl", "paciasp", "autiasp", "fcmp"}
+
+
+def reg_events(arch, insts):
+    """What the instruction stream does to registers, in program order: (index, 'w', grp, id, mnemonic) = the instruction writes the
+    register, (index, 's', grp, id, mnemonic) = it stores the register to memory (push / mov [m],r / str / stp). Purely syntactic (works on
+    every instruction objdump / llvm-objdump printed, also where the symbolic run gives up); the stack pointer is not reported."""
+    ev = []
+    if arch != "a64":
+        for i, (mn, opstr) in enumerate(insts):
+            ops = [o.strip() for o in ap.split_ops(opstr.lower())] if opstr else []
+            regs = [ap.X86REG.get(o) for o in ops]
+            if mn == "push":
+                if regs and regs[0]:
+                    ev.append((i, "s", regs[0][0], regs[0][1], mn))
+                continue
+            if mn == "pop":
+                if regs and regs[0]:
+                    ev.append((i, "w", regs[0][0], regs[0][1], mn))
+                continue
+            if mn in X86_NO_WRITE or not ops:
+                continue
+            if mn == "mov" and len(ops) == 2 and ops[0] == ops[1] and regs[0] is not None and not (arch == "x64" and regs[0][2] == 4):
+                continue       # `mov r, r` changes nothing (except the 32-bit form in 64-bit mode, which clears the upper half)
+            if regs[0] is not None:
+                if not (regs[0][0] == "gp" and regs[0][1] == 4):
+                    ev.append((i, "w", regs[0][0], regs[0][1], mn))
+                if mn == "xchg" and len(regs) > 1 and regs[1] is not None and not (regs[1][0] == "gp" and regs[1][1] == 4):
+                    ev.append((i, "w", regs[1][0], regs[1][1], mn))
+            elif "[" in ops[0] and len(regs) > 1 and regs[1] is not None and (mn.startswith(("mov", "vmov", "kmov"))):
+                ev.append((i, "s", regs[1][0], regs[1][1], mn))
+        return ev
+    for i, (mn, opstr) in enumerate(insts):
+        ops = [o.strip() for o in ap.split_ops(opstr)] if opstr else []
+        if mn in A64_NO_WRITE or not ops:
+            continue
+        if re.match(r"^(stp|str|stur|strb|strh|sturb|sturh|stnp)$", mn):
+            for o in ops[:2 if mn in ("stp", "stnp") else 1]:
+                r = ap.a64_reg(o)
+                if r and r[0] in ("gp", "vec"):
+                    ev.append((i, "s", r[0], r[1], mn))
+            continue
+        if mn == "mov" and len(ops) == 2 and ops[0] == ops[1] and ops[0].startswith("x"):
+            continue           # `mov xN, xN` changes nothing
+        for o in ops[:2 if mn in ("ldp", "ldnp", "ldpsw") else 1]:
+            r = ap.a64_reg(o)
+            if r and r[0] in ("gp", "vec"):
+                ev.append((i, "w", r[0], r[1], mn))
+    return ev
+
+
+def reg_name(arch, grp, rid):
+    if grp == "gp":
+        return ap.GP64[rid] if arch == "x64" else ap.GP32[rid] if arch == "x86" else "x%d" % rid
+    if grp == "vec":
+        return ("xmm%d" if arch != "a64" else "v%d") % rid
+    return "%s%d" % (grp, rid)
+
+
+def clobber_role(case, grp, rid):
+    """which job the register has in this case: identifies the input class (part of the violation key)"""
+    sp = 31 if case["arch"] == "a64" else 4
+    if grp == "gp":
+        if rid == case.get("sa_reg", -1) and rid != sp:
+            return "sa-base:" + ("requested" if rid in (case.get("sa_out", -1), case.get("sa_preset", -1)) else "picked")
+        if rid == case.get("sa_out", -1):
+            return "sa-out-differs-from-frame-sa"
+    for v in case["vals"]:
+        d = v.get("dst")
+        if d and d["k"] == "reg" and d["g"] == grp and d["id"] == rid:
+            return "argument-destination"
+    return "scratch"
+
+
+def frame_text(case):
+    return "frame: preserved_fp=%d local alignment=%d dynamic alignment=%s FuncArgsAssignment::sa_reg_id=%s FuncFrame::set_sa_reg_id=%s -> frame.sa_reg_id()=%s saved_regs gp=0x%x vec=0x%x dirty gp=0x%x" % (
+        case["fp"], case["align"], case.get("da", "?"), case.get("sa_out", -1), case.get("sa_preset", -1), case.get("sa_reg", "?"),
+        case.get("saved", [0, 0])[0], case.get("saved", [0, 0])[1], case.get("dirty", [0, 0])[0])
+
+
+def judge_preserved(case, insts, ctext):
+    """-> (violations, number of written preserved registers verified) : native sentinel comparison + the static rule `a preserved register the
+    prolog / argument shuffle writes is in FuncFrame::saved_regs() and has been stored by the prolog before`"""
+    arch = case["arch"]
+    viol = []
+    seen = set()
+    names = {"x64": "x86-64", "x86": "i386", "a64": "AArch64"}
+    for g, rid, before, after in case.get("pres_bad", []):
+        role = clobber_role(case, g, rid)
+        key = "shuffle:%s:callee-saved-clobbered:%s" % (arch, role)
+        if key in seen:
+            continue
+        seen.add(key)
+        viol.append((key, "native run (%s, %s): callee-saved %s held %s at the call and %s after the function returned; role of the register: %s | %s | %s" % (
+            names[arch], case["conv"], reg_name(arch, g, rid), before, after, role, frame_text(case), ctext)))
+    if "sp_bad" in case:
+        viol.append(("shuffle:%s:stack-pointer-not-restored" % arch, "native run: the stack pointer after the return is off by %d bytes from what the convention prescribes | %s | %s" % (case["sp_bad"], frame_text(case), ctext)))
+    if "apres" not in case or "saved" not in case:
+        return viol, 0
+    pres = {"gp": case["apres"][0], "vec": case["apres"][1]}
+    saved = {"gp": case["saved"][0], "vec": case["saved"][1]}
+    stored = set()
+    verified = set()
+    nprolog = case["_split"]
+    for i, kind, g, rid, mn in reg_events(arch, insts):
+        if g not in pres or rid >= 32 or not (pres[g] >> rid) & 1:
+            continue
+        if kind == "s":
+            if i < nprolog:
+                stored.add((g, rid))
+            continue
+        if (g, rid) in verified:
+            continue
+        verified.add((g, rid))
+        role = clobber_role(case, g, rid)
+        where = "prolog" if i < nprolog else "argument shuffle"
+        if not (saved[g] >> rid) & 1:
+            key = "shuffle:%s:preserved-register-not-saved:%s" % (arch, role)
+            if key not in seen:
+                seen.add(key)
+                viol.append((key, "%s/%s: the %s writes %s (`%s %s`), which the convention preserves, but FuncFrame::saved_regs() does not contain it (the epilog cannot restore it); role of the register: %s | %s | %s" % (
+                    case["env"], case["conv"], where, reg_name(arch, g, rid), insts[i][0], insts[i][1], role, frame_text(case), ctext)))
+        elif (g, rid) not in stored:
+            key = "shuffle:%s:preserved-register-not-stored-by-prolog:%s" % (arch, role)
+            if key not in seen:
+                seen.add(key)
+                viol.append((key, "%s/%s: the %s writes %s (`%s %s`), which the convention preserves and FuncFrame::saved_regs() lists, but no earlier prolog instruction stores it | %s | %s" % (
+                    case["env"], case["conv"], where, reg_name(arch, g, rid), insts[i][0], insts[i][1], frame_text(case), ctext)))
+    return viol, len(verified)
+
+
+def case_text(case):
+    return "%s/%s %s shape=%s fp=%d align=%d case %d seed-arg %s" % (case["env"], case["conv"], ",".join(case["sig"]), case["shape"], case["fp"], case["align"], case["i"], case.get("_argv", ""))
+
+
 def judge_case(case, insts):
     """-> (list of (key, what), verdict) for one emitted case"""
     arch = case["arch"]
@@ -1190,7 +1333,7 @@ def judge_case(case, insts):
         return [], "inconclusive: %s" % (str(e)[:80])
     viol = []
     native = {n[0]: n for n in case.get("nat", [])}
-    ctext = "%s/%s %s shape=%s fp=%d align=%d case %d seed-arg %s" % (case["env"], case["conv"], ",".join(case["sig"]), case["shape"], case["fp"], case["align"], case["i"], case.get("_argv", ""))
+    ctext = case_text(case)
     slots = []
     for vi, v in enumerate(case["vals"]):
         if "dst" not in v:
@@ -1233,7 +1376,7 @@ def judge_case(case, insts):
             continue
         sk, dk = s["k"], d["k"]
         conf = ""
-        if arch == "x64" and case.get("native") not in (None,) and not case.get("native", "").startswith("crash"):
+        if case.get("native") not in (None,) and not case.get("native", "").startswith("crash"):
             if ok and nat_bad:
                 conf = ":native-only"
             elif not ok and not nat_bad:
@@ -1278,7 +1421,7 @@ def judge_case(case, insts):
             viol.append(("shuffle:%s:sa-register-wrong" % arch, "stack-argument base register %d holds %s, expected entry_sp%+d%s | %s" % (
                 case["sa_out"], p, want[1], " (native run disagrees too)" if case.get("sa_bad") else "", ctext)))
     if case.get("native", "").startswith("crash") and not viol:
-        viol.append(("shuffle:x64:crash-unexplained", "native run crashed (%s) but the symbolic run found nothing | %s" % (case["native"], ctext)))
+        viol.append(("shuffle:%s:crash-unexplained" % arch, "native run crashed (%s) but the symbolic run found nothing | %s" % (case["native"], ctext)))
     return viol, "checked"
 
 
@@ -1388,9 +1531,16 @@ def workload_c(chk, exe_plain, exe_asan, tier, scale, cov):
             k += c
 
     add_jobs(exe_plain, "x64", max(n64, 1), ["--exec", "1"], False, "plain")
-    add_jobs(exe_plain, "x86", max(n32, 1), [], False, "plain")
+    add_jobs(exe_plain, "x86", max(n32, 1), ["--exec", "1"], False, "plain")     # executed through the 64->32 far-call gate
     add_jobs(exe_plain, "a64", max(na64, 1), [], False, "plain")
     add_jobs(exe_plain, "x64", max(ncvt, 1), ["--exec", "1", "--convert", "1", "--seed", str(seed + 7777)], False, "plain")
+    # enumerated frame/assignment variants for signatures with stack-passed arguments (drv_func --savar): SA register x dynamic alignment x
+    # preserved FP per convention; one round = 64 variants (72 on i386: + conventions whose scratch registers all hold arguments) per convention
+    rounds = (2, 1, 2) if tier == "quick" else (40, 20, 30)
+    nv64, nv32, nva64 = int(64 * 3 * rounds[0] * scale), int(72 * 8 * rounds[1] * scale), int(64 * 2 * rounds[2] * scale)
+    add_jobs(exe_plain, "x64", max(nv64, 1), ["--exec", "1", "--savar", "1", "--seed", str(seed + 4242)], False, "plain")
+    add_jobs(exe_plain, "x86", max(nv32, 1), ["--exec", "1", "--savar", "1", "--seed", str(seed + 4242)], False, "plain")
+    add_jobs(exe_plain, "a64", max(nva64, 1), ["--savar", "1", "--seed", str(seed + 4242)], False, "plain")
     # the same generator under ASan+UBSan (no native execution): sanitizer reports inside FuncArgsContext / emit helpers
     sper = 100
     for arch in ("x64", "x86", "a64"):
@@ -1405,7 +1555,7 @@ def workload_c(chk, exe_plain, exe_asan, tier, scale, cov):
         cases, sums, reps = run_shuffle_job(exe, argv, restart)
         return job, cases, sums, reps
 
-    tot = {"cases": 0, "emitted": 0, "executed": 0, "crashed": 0, "rejected": 0}
+    tot = {"cases": 0, "emitted": 0, "executed": 0, "executed_x86": 0, "crashed": 0, "rejected": 0}
     rejects = {}
     shapes = set()
     shapes_nt = set()
@@ -1416,6 +1566,10 @@ def workload_c(chk, exe_plain, exe_asan, tier, scale, cov):
     rejected_samples = []
     refused = {}
     san_kinds = set()
+    pres = {"native_cases": 0, "native_registers_compared": 0, "static_cases": 0, "static_written_preserved_registers_verified": 0}
+    variants = {}
+    variant_combos = set()
+    variant_samples = []
     for job, cases, sums, reps in common.parallel_map(one, jobs):
         exe, argv, restart, tag = job
         arch = argv[argv.index("--arch") + 1]
@@ -1436,7 +1590,7 @@ def workload_c(chk, exe_plain, exe_asan, tier, scale, cov):
         for sm in sums:
             tot["cases"] += sm["cases"]
             tot["emitted"] += sm["emitted"]
-            tot["executed"] += sm["executed"]
+            tot["executed" if arch != "x86" else "executed_x86"] += sm["executed"]
             tot["crashed"] += sm["crashed"]
             for k, v in sm["rejects"].items():
                 rejects[k] = rejects.get(k, 0) + v
@@ -1457,8 +1611,11 @@ def workload_c(chk, exe_plain, exe_asan, tier, scale, cov):
                         feats.add("convert")
                     if arch == "x86" and min(tsize(v["src"]["t"]), tsize(v["eff"])) == 1 and (
                             (v["src"]["k"] == "reg" and v["src"]["g"] == "gp" and v["src"]["id"] >= 4) or
-                            (v["dst"]["k"] == "reg" and v["dst"]["g"] == "gp" and v["dst"]["id"] >= 4)):
-                        byte_hi = True       # sil/dil/bpl do not exist in 32-bit mode
+                            (v["dst"]["k"] == "reg" and v["dst"]["g"] == "gp" and v["dst"]["id"] >= 4) or
+                            (v["src"]["k"] == "stack" and v["dst"]["k"] == "stack")):
+                        # sil/dil/bpl do not exist in 32-bit mode; a byte copied stack->stack goes through a scratch register the shuffler
+                        # picks itself - with InvalidRexPrefix that was esi/edi/ebp (same defect: the 8-bit view is used unconditionally)
+                        byte_hi = True
                 vec_srcs = set(v["src"]["id"] for v in c["vals"] if v["src"]["k"] == "reg" and v["src"]["g"] == "vec" and not v["src"].get("ind"))
                 vec_moved = any("dst" in v and v["src"]["k"] == "reg" and v["src"]["g"] == "vec" and v["dst"]["k"] == "reg" and v["dst"]["id"] != v["src"]["id"] for v in c["vals"])
                 if len(vec_srcs) >= {"x86": 8, "x64": 16, "a64": 32}[arch] and vec_moved and c["err"].endswith("InvalidState"):
@@ -1494,6 +1651,29 @@ def workload_c(chk, exe_plain, exe_asan, tier, scale, cov):
         pro = disassemble([bytes.fromhex(c["code"])[:c["plen"]] for c in todo], arch)
         for c, insts, pins in zip(todo, full, pro):
             c["_split"] = len(pins)
+            # preserved registers: native sentinel comparison + static rule (independent of whether the symbolic run below is conclusive)
+            pviol, nver = judge_preserved(c, insts, case_text(c))
+            pres["static_cases"] += 1
+            pres["static_written_preserved_registers_verified"] += nver
+            if "pres_bad" in c:
+                pres["native_cases"] += 1
+                pres["native_registers_compared"] += c.get("pres_checked", 0)
+            if "var" in c:
+                v = c["var"]
+                d = variants.setdefault(arch, {})
+                k = "%s%s%s%s" % (v["sa"], ":da" if c.get("da") else "", ":fp" if v["fp"] else "", ":executed" if "pres_bad" in c else "")
+                d[k] = d.get(k, 0) + 1
+                variant_combos.add((arch, c["conv"], v["sa"], v["reg"] if v["sa"] == "callee-saved" else -1, v["via"], bool(c.get("da")), v["fp"], c["shape"] == "scratch-exhaust"))
+                want = [("x64", "callee-saved"), ("x86", "default"), ("a64", "callee-saved")][len(variant_samples)] if len(variant_samples) < 3 else None
+                if want and arch == want[0] and v["sa"] == want[1] and c.get("da") and not pviol and (arch != "x86" or c["shape"] == "scratch-exhaust"):
+                    variant_samples.append({"case": "%s/%s %s" % (c["env"], c["conv"], ",".join(c["sig"])), "variant": v, "shape": c["shape"],
+                                            "frame_sa_reg": reg_name(arch, "gp", c["sa_reg"]), "saved_regs_gp": "0x%x" % c["saved"][0],
+                                            "prolog": [" ".join(x) for x in insts[:c["_split"]]],
+                                            "verdict": ("executed: every preserved register held its sentinel after the return; " if "pres_bad" in c else "") +
+                                                       "%d written preserved register(s) are in saved_regs() and stored by the prolog" % nver})
+            for key, what in pviol:
+                av = c["_argv"].split() + ["--only", str(c["i"])]
+                chk.violation(key, what, {"part": "shuffle", "flavour": "plain", "argv": av})
             viol, verdict = judge_case(c, insts)
             if verdict != "checked":
                 inconclusive[verdict] = inconclusive.get(verdict, 0) + 1
@@ -1528,6 +1708,7 @@ def workload_c(chk, exe_plain, exe_asan, tier, scale, cov):
         "shuffle_cases_generated": tot["cases"],
         "shuffle_cases_emitted": tot["emitted"],
         "shuffle_cases_executed_natively_x64": tot["executed"],
+        "shuffle_cases_executed_natively_x86_32": tot["executed_x86"],
         "shuffle_native_crashes": tot["crashed"],
         "shuffle_cases_checked_symbolically": checked,
         "shuffle_symbolic_inconclusive": inconclusive,
@@ -1535,6 +1716,13 @@ def workload_c(chk, exe_plain, exe_asan, tier, scale, cov):
         "shuffle_rejected_samples": rejected_samples,
         "shuffle_distinct_assignment_shapes": len(shapes),
         "shuffle_sanitizer_aborts": san_aborts,
+        "shuffle_functions_executed_with_sentinel_check": pres["native_cases"],
+        "shuffle_preserved_registers_compared_natively": pres["native_registers_compared"],
+        "shuffle_static_prolog_checks": pres["static_cases"],
+        "shuffle_static_written_preserved_registers_verified": pres["static_written_preserved_registers_verified"],
+        "shuffle_sa_register_variants": variants,
+        "shuffle_sa_register_variant_combinations": len(variant_combos),
+        "shuffle_sa_register_variant_samples": variant_samples,
     })
     return len(shapes_nt), samples, checked
 
@@ -1752,6 +1940,7 @@ def workload_b(chk, exe_plain, exe_asan, tier, scale, cov):
         return job, rc, out, err
 
     calls = 0
+    guard = {"calls": 0, "regs": 0}
     info = {}
     gen = {"signatures": 0, "calls": 0, "built": 0, "rejected": 0, "rejects": {}, "samples": []}
     for job, rc, out, err in common.parallel_map(one, jobs):
@@ -1773,6 +1962,8 @@ def workload_b(chk, exe_plain, exe_asan, tier, scale, cov):
         for v in res["violations"]:
             chk.violation(v["key"], v["what"], case)
         calls += res["calls"]
+        guard["calls"] += res.get("guard_calls", 0)
+        guard["regs"] += res.get("guard_regs", 0)
         if "--callees" in argv:
             if tag == "plain":
                 gen["signatures"] += res["signatures"]
@@ -1801,6 +1992,8 @@ def workload_b(chk, exe_plain, exe_asan, tier, scale, cov):
         "interop_variadic_with_compiler_al_verdict": sum(1 for x in vfull if x[3] is not None),
         "interop_callee_libraries": len(libs),
         "interop_callee_libraries_compiled": compiled,
+        "interop_calls_through_preserved_register_guard": guard["calls"],
+        "interop_guard_registers_compared": guard["regs"],
     })
     return calls
 
@@ -1860,9 +2053,10 @@ def replay(chk, rp, exe_asan, exe_plain):
             c["_split"] = len(disassemble([bytes.fromhex(c["code"])[:c["plen"]]], arch)[0])
             c["_argv"] = " ".join(case["argv"])
             viol, verdict = judge_case(c, insts)
+            pviol, _ = judge_preserved(c, insts, case_text(c))
             n += 1
             print("\n".join("  " + " ".join(x) for x in insts))
-            for key, what in viol:
+            for key, what in viol + pviol:
                 chk.violation(key, what, case)
     else:
         exe = exe_asan if case.get("flavour") == "asan" else exe_plain
@@ -1915,7 +2109,15 @@ def run(tier, args):
         "mask types are compared with their C typedef (__mmask8..64 = unsigned integer types); MMX with the compilers' __m64",
         "preserved sets / red zone / spill zone: table written from the SysV x86-64, Microsoft x64, i386 and AAPCS64 documents, confirmed at run time by clobber-all and leaf-frame probes; sp, x18 and x30 are not compared; a smaller red zone than the ABI's is accepted",
         "light-call conventions: internal consistency only (FuncDetail well-formed; JIT caller/JIT callee pairs exchange values natively)",
-        "workload C runs natively on x86-64 only; x86-32 and AArch64 entry sequences are compile-only: their bytes are disassembled by objdump / llvm-objdump and executed symbolically (byte-level symbols), no hardware execution",
+        "workload C runs natively on x86-64 and, through a far call into the kernel's 32-bit user code segment (selector 0x23; code, stack and machine image below 4 GiB), on x86-32; "
+        "AArch64 entry sequences are compile-only; the bytes of all three are disassembled by objdump / llvm-objdump and executed symbolically (byte-level symbols)",
+        "preserved-register oracle (executed): the sets are written down from the ABI documents in the driver (SysV x86-64: rbx rbp r12-r15; Microsoft x64/vectorcall: + rsi rdi xmm6-xmm15 (low 128 bits); "
+        "i386: ebx ebp esi edi), not read from the library; light-call conventions have no platform ABI, there the convention's own CallConv::preserved_regs() is what its callers rely on; "
+        "the stack pointer after the return must be the one at the call (+ the argument bytes where the i386 convention is callee-pops); interop: JIT functions called from gcc-built code "
+        "and from the driver are entered through a transparent guard thunk (return address popped to memory, target re-called, so stack arguments stay in place)",
+        "preserved-register rule (static, all architectures): a register of the preserved set that the emitted prolog / argument shuffle writes (first operand of a non-compare instruction, both of xchg, "
+        "pop, ldp; `mov r,r` of full width is no write) must be in FuncFrame::saved_regs() and a prolog instruction before the write must store it; violation keys carry the role of the register "
+        "(sa-base:requested|picked, sa-out-differs-from-frame-sa, argument-destination, scratch), not its name",
         "narrow integer arguments carry junk above their declared width (the ABI does not promise more); destinations are compared on the bytes of the destination type only; mixed-signedness widenings are not generated",
         "an error returned by update_func_frame/emit_args_assignment/Compiler::finalize is counted as 'rejected', never as a violation",
         "ASan/UBSan flavour: classification, a slice of workload C without execution, one interop pass; plain -O2 flavour: native execution",
